@@ -36,6 +36,38 @@ PY = "/venv/bin/python"
 
 # (regex on "file::test", regex on failure text, label, note)
 TRIAGE = [
+    (r"test_0020-.*::test_index$", r"OverflowError: Python integer -1 out of bounds for uint8", "env",
+     "NumPy 2: np.array([-1], dtype='u1') raises OverflowError (out-of-bound Python ints are no longer wrapped); "
+     "the failure is in the test's own NumPy call"),
+    (r"test_0119-.*::test_numexpr$", r"getContext\(\) got an unexpected keyword argument 'frame_depth'", "env",
+     "numexpr 2.14: necompiler.getContext() lost the frame_depth keyword used by awkward/_connect/_numexpr.py"),
+    (r"test_0135-.*::test_fromawkward0$", r"Unable to avoid copy while creating an array", "env",
+     "awkward0 0.15.5 calls numpy.array(copy=False), which NumPy 2 turned into an error when a copy is needed"),
+    (r"test_0173-.*::test_ufunc_afterward$", r"2\.100000023841858 != 2\.0999999046325684", "env",
+     "NumPy 2 (NEP 50): the scalar operand reaches the ufunc as a 0-d int64 array, which no longer takes part in "
+     "value-based casting, so float32 + 1 is computed in float64"),
+    (r"test_0449-.*::test_numpyarray$", r"dtype\('float64'\) == dtype\('float32'\)", "env",
+     "NumPy 2: np.concatenate/result_type of (int8, uint16, float32, bool) is float32 (NumPy 1: pairwise promotion "
+     "gave float64, which is also what libawkward's mergemany produces)"),
+    (r"test_0593-.*::test_to_parquet_2$", r"declared non-nullable but contains nulls", "repo?",
+     "ak.to_arrow of option[record] emits struct children flagged 'not null' that carry a validity bitmap with nulls "
+     "under the null parents; pyarrow >= 15 refuses to write such a column to Parquet.  Reproducer: "
+     "ak.to_parquet(ak.Array([[{'x': 0.0, 'y': []}, {'x': 2.2, 'y': None}], [], [{'x': 3.3, 'y': [1]}, None]]), path)"),
+    (r"test_0645-", r"device_buffer has been deprecated", "env",
+     "jax 0.11 removed Array.device_buffer, which NumpyArray.from_jax / Index.from_jax (src/python/*.cpp) read"),
+    (r"test_0688-|test_0871-", r"'UnmaskedArray' object has no attribute 'field'", "env",
+     "pyarrow 25: ParquetFile.read_row_group(columns=['x.list.item.y']) returns the partially read struct as "
+     "nullable although the file schema says 'not null', so from_arrow wraps the RecordArray in an UnmaskedArray "
+     "that _LazyDatasetGenerator does not expect"),
+    (r"test_0793-.*::test_numpyarray_grad_3$", r"iteration over a 0-d array", "env",
+     "jax 0.11: jax.jvp returns a 0-d jax Array here and ak.to_list iterates it"),
+    (r"test_0793-.*::test_recordarray_[456]$", r"\d\.\d+ != ", "env",
+     "jax 0.11 computes in float32 unless jax_enable_x64 is set; the expected values are float64"),
+    (r"test_0813-.*::test$", r"\[0, 0, 0\] != \[True, True, True\]", "env",
+     "NumPy 2: casting the string '0' to bool is True (non-empty), NumPy 1 parsed it as the integer 0 -> False "
+     "(ak.zeros_like(strings, dtype=bool) goes through strings_astype)"),
+    (r"test_0868-.*::test$", r"module 'vector' has no attribute '_backends'", "env",
+     "vector 1.8 renamed vector._backends to vector.backends"),
 ]
 
 # generic patterns on the failure text
